@@ -18,8 +18,12 @@ PROP = {
         # agree   : Model.deliver and MultiTx.deliver_multi on a one-element list give the same result and state
         "checks": {"corr": "check_case", "monitor": "monitor_case", "gasrule": "gasrule_case", "agree": "agree_case",
                    # blockgas: a tx refused by a named admission check leaves the block gas meter alone (finding F2)
-                   "blockgas": "blockgas_case"},
-        "kinds": {"corr": "corr", "monitor": "monitor", "gasrule": "monitor", "agree": "corr", "blockgas": "monitor"},
+                   "blockgas": "blockgas_case",
+                   # mustrun: an admitted tx is dropped with its whole gas limit burnt only for intrinsic gas / blocked recipient /
+                   # block gas overflow; otherwise it executes, whoever proposed the block (jailed, key replaced, opted out ...)
+                   "mustrun": "mustrun_case"},
+        "kinds": {"corr": "corr", "monitor": "monitor", "gasrule": "monitor", "agree": "corr", "blockgas": "monitor",
+                  "mustrun": "monitor"},
         "n_quick": 200,
         "n_thorough": 3000,
     }, {
@@ -29,8 +33,8 @@ PROP = {
         "harness": "c19multi",
         "header": "From Coq Require Import List String ZArith.\nFrom Exo Require Import Base.IntDec Base.Util C19.Model C19.Multi.\nImport ListNotations.",
         "case_type": "mcase",
-        "checks": {"corr": "mcheck_case", "monitor": "mmonitor_case", "noncerule": "mnonce_case"},
-        "kinds": {"corr": "corr", "monitor": "monitor", "noncerule": "corr"},
+        "checks": {"corr": "mcheck_case", "monitor": "mmonitor_case", "noncerule": "mnonce_case", "mustrun": "mmustrun_case"},
+        "kinds": {"corr": "corr", "monitor": "monitor", "noncerule": "corr", "mustrun": "monitor"},
         "n_quick": 120,
         "n_thorough": 1500,
     }, {
@@ -44,7 +48,9 @@ PROP = {
         "n_quick": 150,
         "n_thorough": 2000,
     }],
-    "rule": ("each case = one block of a real ExocoreApp chain (state carries over from case to case): fee-market params drawn per block "
+    "rule": ("each case = one block of a real ExocoreApp chain (state carries over from case to case); the block's proposer is each genesis "
+             "validator in turn, put into a mid-epoch proposer state with the real keepers (active / jailed via dogfood Jail / consensus key just "
+             "replaced or replaced earlier / just opted out or unbonding); fee-market params drawn per block "
              "(base fee on/off and value, MinGasPrice 0 / 1e-18 / 1500000000.5 / random integer, MinGasMultiplier 0, 1/3, 0.5, 1, random permille), "
              "consensus MaxGas -1 / 100000 / random 150k..1.05M; 1-7 signed Ethereum transactions (legacy / access-list / dynamic-fee, with and "
              "without access-list entries) delivered through ABCI DeliverTx: transfers to EOA / self / fresh address, calls to hand-assembled "
